@@ -73,7 +73,7 @@ func main() {
 					changed = true
 				}
 			}
-			if names := instrumentLocks(f, filepath.Base(pkg)); len(names) > 0 {
+			if names := instrumentLocks(f, filepath.Base(pkg), pkg == "dispatch"); len(names) > 0 {
 				sites = append(sites, names...)
 				changed = true
 			}
@@ -134,7 +134,7 @@ func main() {
 // it holds: it only ever suspends a goroutine that holds none, because a
 // goroutine blocked on a sync.Mutex is not durably blocked and virtual time
 // would stand still. Returns the names of the functions that acquire a lock.
-func instrumentLocks(f *ast.File, pkg string) []string {
+func instrumentLocks(f *ast.File, pkg string, lockFree bool) []string {
 	var names []string
 	yield := func(args ...string) ast.Stmt {
 		var as []ast.Expr
@@ -179,6 +179,21 @@ func instrumentLocks(f *ast.File, pkg string) []string {
 						out = append(out, st, yield("auto.unlocked"))
 						total++
 						continue
+					}
+				}
+				if lockFree && hasSyncOp(st) {
+					out = append(out, yield("auto.lock", fname))
+					total++
+					if len(names) == 0 || names[len(names)-1] != fname {
+						names = append(names, fname)
+					}
+				}
+			case *ast.AssignStmt, *ast.IfStmt:
+				if lockFree && hasSyncOp(st) {
+					out = append(out, yield("auto.lock", fname))
+					total++
+					if len(names) == 0 || names[len(names)-1] != fname {
+						names = append(names, fname)
 					}
 				}
 			case *ast.DeferStmt:
@@ -250,6 +265,51 @@ func instrumentLocks(f *ast.File, pkg string) []string {
 		}
 	}
 	return names
+}
+
+// hasSyncOp reports whether the statement itself (its expressions, its if-header;
+// not the blocks nested in it) calls a sync.Map / atomic operation that other
+// goroutines can observe: lock-free code (the dispatcher's group map) has these
+// instead of critical sections, and the simulator may suspend a goroutine right
+// before one.
+func hasSyncOp(st ast.Stmt) bool {
+	found := false
+	check := func(n ast.Node) {
+		if n == nil {
+			return
+		}
+		ast.Inspect(n, func(x ast.Node) bool {
+			switch c := x.(type) {
+			case *ast.BlockStmt, *ast.FuncLit:
+				return false
+			case *ast.CallExpr:
+				if sel, ok := c.Fun.(*ast.SelectorExpr); ok {
+					switch sel.Sel.Name {
+					case "LoadOrStore", "LoadAndDelete", "CompareAndSwap", "CompareAndDelete", "Swap":
+						found = true
+					case "Load", "Store", "Delete":
+						// sync.Map forms only: Load(key), Store(key, v), Delete(key)
+						if (sel.Sel.Name == "Store" && len(c.Args) == 2) || (sel.Sel.Name != "Store" && len(c.Args) == 1) {
+							found = true
+						}
+					}
+				}
+			}
+			return true
+		})
+	}
+	switch x := st.(type) {
+	case *ast.ExprStmt:
+		check(x.X)
+	case *ast.AssignStmt:
+		for _, e := range x.Rhs {
+			check(e)
+		}
+	case *ast.IfStmt:
+		check(x.Init)
+		check(x.Cond)
+	}
+	return found
 }
 
 // runtimeOverlay makes the three places where the Go runtime draws an unseeded
